@@ -99,6 +99,12 @@ def load_known():
     return json.loads(KNOWN.read_text())
 
 
+def has_new_findings(res) -> bool:
+    known = load_known()
+    known_keys = {(k['property'], k['rule'], k['construct']) for k in known.get('findings', [])}
+    return any((not f.advisory) and f.key not in known_keys for f in res.findings)
+
+
 def finish(res: Result, tier: str, seed: int, t0: float, level: str, checker_cmd: str, quiet=False) -> int:
     """Print the report, write evidence, return the exit status (0 / 1 / 2)."""
     known = load_known()
